@@ -16,7 +16,15 @@ pub type MetaSpec = Vec<(String, MVal)>;
 const KEY_CHARS: &[u8] = b"abcdefghijklmnopqrstuvwxyz0123456789-_.";
 const KEY_CHARS_RARE: &[u8] = b"!#$%&'*+^`|~";
 
+/// Ordinary (non-reserved) names that merely begin like a reserved one.
+pub const NEAR_RESERVED: &[&str] = &["te-x", "team", "tenant-id", "test-trace", "user-agent-family", "content-type-options", "content-typ",
+    "grpc-status-origin", "grpc-message-id", "grpc-statu", "t", "tex"];
+
 pub fn gen_key(rng: &mut Rng, bin: bool) -> String {
+    if rng.chance(1, 12) {
+        let k = rng.pick(NEAR_RESERVED).to_string();
+        return if bin { format!("{}-bin", k) } else { k };
+    }
     loop {
         let n = rng.urange(1, 12);
         let mut k = String::new();
